@@ -2156,6 +2156,58 @@ cleanup:
 }
 
 LY_ERR
+lyd_validate_children(struct lyd_node *parent, uint32_t val_opts, struct ly_set *node_when_p, struct ly_set *node_types_p,
+        struct ly_set *meta_types_p, struct ly_set *ext_node_p, struct ly_set *ext_val_p)
+{
+    LY_ERR r, rc = LY_SUCCESS;
+    struct lyd_node *tree, **first_p;
+    uint32_t impl_opts = 0;
+    struct ly_ht *getnext_ht = NULL;
+
+    assert(parent && parent->schema && (parent->schema->nodetype & LYD_NODE_INNER));
+    assert(node_when_p && node_types_p && meta_types_p && ext_node_p && ext_val_p);
+
+    first_p = lyd_node_child_p(parent);
+
+    /* learn the data tree root */
+    for (tree = parent; tree->parent; tree = lyd_parent(tree)) {}
+    tree = lyd_first_sibling(tree);
+
+    /* create the getnext hash table for these data */
+    r = lyd_val_getnext_ht_new(&getnext_ht);
+    LY_CHECK_ERR_GOTO(r, rc = r, cleanup);
+
+    /* validate new children, autodelete */
+    r = lyd_validate_new(first_p, parent->schema, NULL, NULL, val_opts, 0, getnext_ht, NULL);
+    LY_VAL_ERR_GOTO(r, rc = r, val_opts, cleanup);
+
+    /* add all the implicit children, descendants will not be validated so create them all */
+    if (val_opts & LYD_VALIDATE_NO_STATE) {
+        impl_opts |= LYD_IMPLICIT_NO_STATE;
+    }
+    if (val_opts & LYD_VALIDATE_NO_DEFAULTS) {
+        impl_opts |= LYD_IMPLICIT_NO_DEFAULTS;
+    }
+    r = lyd_new_implicit_r(parent, first_p, NULL, NULL, node_when_p, node_types_p, ext_node_p, impl_opts, getnext_ht, NULL);
+    LY_CHECK_ERR_GOTO(r, rc = r, cleanup);
+
+    /* finish incompletely validated terminal values/attributes and when conditions */
+    r = lyd_validate_unres(&tree, NULL, LYD_TYPE_DATA_YANG, node_when_p, 0, node_types_p, meta_types_p, ext_node_p,
+            ext_val_p, val_opts, NULL);
+    LY_VAL_ERR_GOTO(r, rc = r, val_opts, cleanup);
+
+    if (!(val_opts & LYD_VALIDATE_NOT_FINAL)) {
+        /* perform final validation that assumes the data tree is final */
+        r = lyd_validate_final_r(*first_p, parent, parent->schema, NULL, NULL, val_opts, 0, 0, getnext_ht);
+        LY_VAL_ERR_GOTO(r, rc = r, val_opts, cleanup);
+    }
+
+cleanup:
+    lyd_val_getnext_ht_free(getnext_ht);
+    return rc;
+}
+
+LY_ERR
 lyd_validate_ext(struct lyd_node **tree, const struct lysc_ext_instance *ext, uint32_t val_opts,
         ly_bool validate_subtree, struct ly_set *node_when_p, struct ly_set *node_types_p, struct ly_set *meta_types_p,
         struct ly_set *ext_node_p, struct ly_set *ext_val_p, struct lyd_node **diff)
